@@ -862,6 +862,81 @@ impl B {
         self.push(t, Op::Lockstep { needle, cfgs, hays, iter, inert_at });
     }
 
+    /// C16: one finder, one piece of memory whose contents change between
+    /// searches (a read buffer that is refilled). Whatever a finder remembers
+    /// about a haystack, its address is not the haystack.
+    fn scn_refill(&mut self, t: usize, max_hay: usize, max_needle: usize) {
+        if self.full() {
+            return;
+        }
+        let (mut needle_bytes, _) = inputs::sub_pair(&mut self.rng, 64, max_needle);
+        if needle_bytes.is_empty() {
+            needle_bytes = vec![b'q', b'z'];
+        }
+        let len = match self.rng.below(4) {
+            0 => self.rng.range(needle_bytes.len(), needle_bytes.len() + 80),
+            1 => self.rng.range(512, 700),
+            _ => inputs::len_biased(&mut self.rng, max_hay).max(needle_bytes.len() + 1),
+        };
+        // first contents: made of bytes the needle does not have (no match,
+        // no candidate), or of the needle's own bytes
+        let absent: Vec<u8> = (0..=255u8).filter(|b| !needle_bytes.contains(b)).take(3).collect();
+        let alpha: Vec<u8> = if self.rng.chance(2, 3) && !absent.is_empty() { absent } else { needle_bytes.clone() };
+        let first = inputs::word(&mut self.rng, len, &alpha);
+        let mut versions: Vec<Vec<u8>> = Vec::new();
+        for _ in 0..self.rng.range(1, 3) {
+            let mut h = if self.rng.chance(1, 2) {
+                first.clone()
+            } else {
+                inputs::structured(&mut self.rng, len, &needle_bytes)
+            };
+            h.resize(len, alpha[0]);
+            if self.rng.chance(4, 5) && len >= needle_bytes.len() {
+                let at = match self.rng.below(3) {
+                    0 => 0,
+                    1 => len - needle_bytes.len(),
+                    _ => self.rng.range(0, len - needle_bytes.len()),
+                };
+                h[at..at + needle_bytes.len()].copy_from_slice(&needle_bytes);
+            }
+            versions.push(h);
+        }
+        let rev = self.rng.chance(1, 3);
+        let needle = self.buf(needle_bytes, None);
+        let cfg = self.finder_cfg();
+        let f = self.slot(t);
+        self.push(t, Op::FinderNew { rev, needle, cfg, dst: f });
+        let base = self.buf(first, None);
+        let mut ids = vec![base];
+        for v in versions {
+            self.bufs.push(Buf { bytes: v, place: Place::Over(base) });
+            ids.push(self.bufs.len() - 1);
+        }
+        let mut cur = base;
+        for step in 0..self.rng.range(2, 7) {
+            if self.full() {
+                break;
+            }
+            if step > 0 && self.rng.chance(2, 3) {
+                cur = *self.rng.pick(&ids);
+                self.push(t, Op::Refill { buf: cur });
+            }
+            if self.rng.chance(1, 5) {
+                // a complete traversal, dropped before the memory changes again
+                let it = self.slot(t);
+                self.push(t, Op::FIterNew { f: Some(f), rev, hay: cur, needle, dst: it });
+                for _ in 0..self.rng.range(1, 4) {
+                    self.push(t, Op::FIterNext { it });
+                }
+                self.push(t, Op::Drop { s: it });
+            } else {
+                let via_ref = self.rng.chance(1, 4);
+                self.push(t, Op::FinderFind { f, hay: cur, via_ref });
+            }
+        }
+        self.push(t, Op::Drop { s: f });
+    }
+
     fn scn_cost(&mut self, t: usize) {
         let max_log = self.tgt.cost_max_log2.max(8);
         let nlog = self.rng.range(8, max_log as usize) as u32;
@@ -1176,10 +1251,14 @@ pub fn generate(profile: Profile, verif_seed: u64, index: u64, tgt: Target) -> F
             for _ in 0..k {
                 let t = b.rng.usize_below(nthreads.saturating_sub(1).max(1));
                 let (mh, mn) = (b.max_hay(1200), 300);
-                match b.rng.below(10) {
+                match b.rng.below(12) {
                     0..=5 => b.scn_finder_reuse(t, mh, mn, true),
                     6..=8 => b.scn_sub_iter(t, mh, mn, true),
-                    _ => b.scn_related_finders(t, t, mh),
+                    9 => b.scn_related_finders(t, t, mh),
+                    // memory that changes under a live iterator would be the
+                    // harness' own aliasing bug under the interpreter
+                    _ if tgt.miri => b.scn_finder_reuse(t, mh, mn, true),
+                    _ => b.scn_refill(t, mh, mn),
                 }
             }
         }
